@@ -70,6 +70,20 @@ def model_check(chk, tier):
         core.tlc_must_pass(res, "Startup " + cfg)
         chk.add_tlc(res)
         info.append({"cfg": cfg, "states": res.distinct, "transitions": res.generated, "wall_s": round(res.wall, 1)})
+    for cfg in (["Reloc_q.cfg"] if tier == "quick" else ["Reloc_t.cfg", "Reloc_t2.cfg"]):
+        res = core.run_tlc("Reloc_MC.tla", cfg, workers=8, timeout=3000, xmx="6g")
+        if res.invariant_violated:
+            info.append({"cfg": cfg, "model_counterexample": res.invariant_violated})
+            core.log("Reloc %s: model counterexample %s (lead; the real images are judged by clause reloc_image)" % (cfg, res.invariant_violated))
+            continue
+        core.tlc_must_pass(res, "Reloc " + cfg)
+        with _LOCK:
+            chk.add_tlc(res)
+        info.append({"cfg": cfg, "states": res.distinct, "transitions": res.generated, "wall_s": round(res.wall, 1)})
+    if tier != "quick":
+        res = core.run_tlc("Reloc_MC.tla", "Reloc_dynfirst.cfg", workers=4, timeout=3000, xmx="4g")
+        info.append({"cfg": "Reloc_dynfirst.cfg", "lead_decided_by_model": "PT_DYNAMIC as FIRST program header is never seen by the walk "
+                     "(it starts at the second header): base stays 0", "counterexample_found": bool(res.invariant_violated)})
     if tier != "quick":
         # anti-vacuity: the algorithm as found in the pinned tree must be rejected by the same invariants
         res = core.run_tlc("Startup_MC.tla", "Startup_lookup2_pinned.cfg", workers=8, timeout=3000, xmx="6g")
@@ -536,6 +550,157 @@ def reloc_audit(binary):
     return info
 
 
+BASEK = 1 << 30
+
+
+def reloc_image(chk, bins):
+    """Clause reloc_image (static PIE with self-relocation): the REAL relocation tables of each static-PIE probe
+    (parsed from the ELF file by checks/elfparse.py) and the REAL memory of the running, stopped probe are judged
+    by TLC (RelocJudge.tla) with the definitional Relocated of RelocDef.tla; RelocTrace.tla additionally runs the
+    transcription Reloc.tla on the same real tables (conformance)."""
+    from checks import elfparse
+    recs, meta = [], []
+    for (mode, build), binary in sorted(bins.items()):
+        if mode != "spie":
+            continue
+        elf = elfparse.Elf(open(binary, "rb").read())
+        rela, rel = elf.rela_table(), elf.rel_table()
+        dyn = dict(elf.dynamic())
+        vaddrs = sorted({e[0] for e in rela} | {e[0] for e in rel})
+        tset = set(vaddrs)
+        for name in (".data.rel.ro", ".got", ".got.plt"):       # nothing writes these after start-up
+            s = elf.section(name)
+            if s:
+                vaddrs += [a for a in range(s["addr"], s["addr"] + s["size"] - 7, 8) if a not in tset]
+        vaddrs = sorted(set(vaddrs))
+        index = {a: k + 1 for k, a in enumerate(vaddrs)}
+        p = subprocess.Popen([binary, "image"], stdin=subprocess.PIPE, stdout=subprocess.PIPE, stderr=subprocess.PIPE, env={})
+        try:
+            seen = b""
+            while b"clock real" not in seen:
+                ch = p.stdout.readline()
+                if not ch:
+                    break
+                seen += ch
+            if b"clock real" not in seen:
+                # the probe did not get through start-up: that is clause status' business (it runs the same binary)
+                meta.append({"mode": mode, "build": build, "skipped": "probe did not reach its marker line"})
+                continue
+            base = None
+            for l in open("/proc/%d/maps" % p.pid):
+                if binary in l:
+                    base = int(l.split("-")[0], 16) - int(l.split()[2], 16)
+                    break
+            if base is None:
+                raise core.ToolError("cannot find the load base of %s" % binary)
+            after = []
+            with open("/proc/%d/mem" % p.pid, "rb", buffering=0) as mem:
+                for a in vaddrs:
+                    mem.seek(base + a)
+                    after.append(int.from_bytes(mem.read(8), "little"))
+        finally:
+            try:
+                p.stdin.close()
+            except OSError:
+                pass
+            try:
+                p.wait(timeout=10)
+            except subprocess.TimeoutExpired:
+                p.kill()
+
+        # exact, equality-preserving encoding into TLC's integers: run-time values inside the image become
+        # BASEK + (v - base); other values below 2^29 stay; any other 64-bit value gets an id 2^29 + rank (the same
+        # value always the same id), which can only ever be compared for equality
+        bigs = {}
+
+        def small(v):
+            if 0 <= v < (1 << 29):
+                return v
+            return (1 << 29) + bigs.setdefault(v, len(bigs))
+
+        def enc(v):
+            if base <= v < base + (1 << 29):
+                return BASEK + v - base
+            return small(v)
+
+        before = [small(elf.word_at(a)) for a in vaddrs]
+        recs.append({"mode": mode, "build": build,
+                     "rela": [[index[o], small(i), a if -(1 << 29) < a < (1 << 29) else small(a % (1 << 64))] for o, i, a in rela],
+                     "rel": [[index[o], small(i)] for o, i in rel],
+                     "before": before, "after": [enc(v) for v in after],
+                     "dyn": [[small(tg), small(v)] for tg, v in elf.dynamic()],
+                     "phdrs": [[small(ph["type"]), small(ph["vaddr"])] for ph in elf.phdrs],
+                     "reladdr": small(dyn.get(17, 0)), "relaaddr": small(dyn.get(7, 0)),
+                     "dynvaddr": next((ph["vaddr"] for ph in elf.phdrs if ph["type"] == 2), 0)})
+        meta.append({"mode": mode, "build": build, "vaddrs": vaddrs, "base": base, "raw_after": after,
+                     "rela_entries": len(rela), "rel_entries": len(rel), "words_judged": len(vaddrs)})
+    info = {"binaries": [{k: m[k] for k in m if k not in ("vaddrs", "raw_after", "base")} for m in meta]}
+    chk.extra["reloc_image"] = info
+    if not recs:
+        return
+    path = os.path.join(chk.work, "reloc_image.ndjson")
+    core.write_ndjson(path, recs)
+    # canaries (anti-vacuity): the first image with (a) one relocated word left at its link-time value,
+    # (b) one word that no entry names changed, (c) a relocated word holding base + addend + 8
+    import copy
+    canaries = []
+    r0 = recs[0]
+    tk = next((e[0] for e in r0["rela"] if e[1] == 8), None)
+    nk = next((k for k in range(1, len(r0["before"]) + 1) if k not in {e[0] for e in r0["rela"]} | {e[0] for e in r0["rel"]}), None)
+    if tk:
+        c = copy.deepcopy(r0); c["after"][tk - 1] = c["before"][tk - 1]; canaries.append((tk, c))
+        c = copy.deepcopy(r0); c["after"][tk - 1] += 8; canaries.append((tk, c))
+    if nk:
+        c = copy.deepcopy(r0); c["after"][nk - 1] += 1; canaries.append((nk, c))
+    cpath = os.path.join(chk.work, "reloc_image_all.ndjson")
+    core.write_ndjson(cpath, recs + [c for _, c in canaries])
+    res = core.run_tlc("RelocJudge.tla", "RelocJudge.cfg", workers=1, env={"TRACE": cpath}, timeout=3000, xmx="3g")
+    core.tlc_must_pass(res, "RelocJudge")
+    with _LOCK:
+        chk.add_tlc(res)
+    j = res.printed("JUDGED")
+    if len(j) != 1 or j[0]["n"] != len(recs) + len(canaries):
+        raise core.ToolError("RelocJudge did not report on all %d images" % len(recs))
+    for (k, _), v in zip(canaries, j[0]["v"][len(recs):]):
+        if k not in v["bad"] or not set(v["bad"]) <= set(j[0]["v"][0]["bad"]) | {k}:
+            raise core.ToolError("RelocJudge did not reject a corrupted image exactly at word %d: %s" % (k, v["bad"][:5]))
+    info["canaries_rejected"] = len(canaries)
+    full = [m for m in meta if "vaddrs" in m]
+    for v, rec, m in zip(j[0]["v"], recs, full):
+        if not v["wf"]:
+            raise core.ToolError("relocation tables of %s/%s are not well formed (duplicate targets?)" % (rec["mode"], rec["build"]))
+        with _LOCK:
+            chk.evaluations += 1
+            chk.traces += 0 if v["bad"] else 1
+        if v["bad"]:
+            targets = {e[0] for e in rec["rela"] if e[1] == 8} | {e[0] for e in rec["rel"] if e[1] == 8}
+            unapplied = [k for k in v["bad"] if k in targets]
+            kind = "relocation_not_applied" if unapplied else "word_changed_without_relocation"
+            shown = [{"vaddr": hex(m["vaddrs"][k - 1]), "holds": hex(m["raw_after"][k - 1]),
+                      "link_time": hex(rec["before"][k - 1]),
+                      "rela_entry": next((n for n, e in enumerate(rec["rela"]) if e[0] == k), None)} for k in v["bad"][:5]]
+            with _LOCK:
+                chk.violate({"clause": "reloc_image", "mode": rec["mode"], "kind": kind},
+                            "[%s/%s] %d of %d words of the running static-PIE image differ from Relocated(image) (load base %s): %s" % (
+                                rec["mode"], rec["build"], len(v["bad"]), len(rec["before"]), hex(m["base"]), shown),
+                            {"mode": rec["mode"], "build": rec["build"], "clause": "reloc_image", "words": shown,
+                             "argv": [[97]], "env": [], "keys": []})
+    info["relative_entries_judged"] = sum(v["targets"] for v in j[0]["v"][:len(recs)])
+    # conformance of the transcription on the real tables
+    try:
+        res = core.run_tlc("RelocTrace.tla", "RelocTrace.cfg", workers=2, env={"TRACE": path}, timeout=3000, xmx="3g")
+        core.tlc_must_pass(res, "RelocTrace")
+        with _LOCK:
+            chk.add_tlc(res)
+        conf, div = res.printed("CONF"), res.printed("DIV")
+        info["transcription_on_real_tables"] = {"conform": len(conf), "diverged": len(div), "states": res.distinct,
+                                                "first_divergence": div[:1]}
+        if div:
+            core.log("C07: model drift - Reloc.tla run on the real tables ends in another memory than the real probe (not a verdict)")
+    except core.ToolError as e:
+        info["transcription_on_real_tables"] = {"error": str(e)[:300]}
+
+
 EXTRA_ENVS = [
     [[70, 79, 61, 49], [70, 79, 79, 61, 50]],                       # FO=1 FOO=2  (the lead of DESIGN.md section 6)
     [[65, 61, 255, 254], [66, 61, 120]],                             # non-UTF-8 value
@@ -562,6 +727,7 @@ def run(tier):
     core.run_cmd(["make", "-s", "-C", os.path.join(core.VERIF, "tools"), "bin/launch"])
     quick = tier == "quick"
     bg = concurrent.futures.ThreadPoolExecutor(max_workers=1)
+    bg2 = concurrent.futures.ThreadPoolExecutor(max_workers=1)
     model_future = bg.submit(model_check, chk, tier)
 
     bins = {}
@@ -570,6 +736,7 @@ def run(tier):
             bdir = core.cargo_build(template=tmpl, release=rel)
             bins[(mode, "release" if rel else "debug")] = os.path.join(bdir, "startprobe")
 
+    image_future = bg2.submit(reloc_image, chk, bins)
     envs_all = gen(chk, "env", 3)
     argvs = [v["argv"] for v in gen(chk, "argv", 0)]
     rng = random.Random(chk.seed)
@@ -666,6 +833,8 @@ def run(tier):
         chk.extra["model_conformance_ok"] = False
     if not quick:
         action_coverage(chk, "Startup_MC.tla", ["Startup_boot.cfg", "Startup_lookup2.cfg"])
+    image_future.result()
+    bg2.shutdown()
     core.log("C07: judged (t=%.0fs)" % (time.time() - chk.t0))
     chk.nontrivial = len(nontrivial)
     chk.exhaustive = not quick
@@ -709,6 +878,13 @@ def replay(path):
     core.run_cmd(["make", "-s", "-C", os.path.join(core.VERIF, "tools"), "bin/launch"])
     tmpl = dict(MODES)[rp["mode"]]
     bdir = core.cargo_build(template=tmpl, release=rp["build"] == "release")
+    if rp.get("clause") in ("reloc_image", "vdso"):
+        fn = reloc_image if rp["clause"] == "reloc_image" else vdso_lookup
+        fn(chk, {(rp["mode"], rp["build"]): os.path.join(bdir, "startprobe")})
+        for v in chk.violations:
+            print("REJECTED", v.what[:1500])
+        print("accepted" if not chk.violations else "%d violation(s)" % len(chk.violations))
+        return 1 if chk.violations else 0
     case = {"argv": rp["argv"], "env": rp["env"], "keys": rp.get("keys") or [rp.get("key", [])]}
     recs, raws = run_binary(chk, rp["mode"], rp["build"], os.path.join(bdir, "startprobe"), [case], "replay")
     bad = judge(chk, recs, "replay")
